@@ -1,19 +1,15 @@
-"""Metadata of the registered checks; bin/mkmanifest turns it into MANIFEST.json."""
+"""Collects the META record of every checks/cNN.py; bin/mkmanifest turns it into MANIFEST.json."""
+import glob
+import importlib
+import os
 
-CHECKS = {
-    "C03": {
-        "level": "model_checking",
-        "text": "NackGen.tla is model checked exhaustively at scaled constants (all histories of <= 6-8 actions, two streams); "
-                "TLC enumerates every boundary-alphabet behaviour at the real 2^16 modulus and the behaviours plus seeded random "
-                "histories are executed on the real receiveLog and GeneratorInterceptor; every recorded trace must be a behaviour "
-                "of the specification (each NACK set compared with the specification's set after every tick).",
-        "note": "Trusted: the reading of the property in NackGen.tla; tick stepping through the verif gate (real 200us ticker); "
-                "pion/rtcp NackPairs expansion. Schedules of concurrent readers vs. the loop are not enumerated here (C10).",
-        "technique": "TLA+ spec + TLC model checking, TLC-generated behaviours replayed into the Go code, recorded traces validated by TLC",
-        "design_ref": "DESIGN.md section 7 C03",
-        "spec": ["NackGen.tla", "MC_NackGen.tla", "Gen_NackGen.tla", "Trace_NackGen.tla"],
-    },
-}
+HERE = os.path.dirname(os.path.abspath(__file__))
+CHECKS = {}
+for _p in sorted(glob.glob(os.path.join(HERE, "c[0-9][0-9].py"))):
+    _name = os.path.basename(_p)[:-3]
+    _mod = importlib.import_module(_name)
+    if getattr(_mod, "META", None):
+        CHECKS[_name.upper()] = _mod.META
 
 # properties without a registered check, with the reason (kept current by hand)
 NOT_APPLICABLE = {
